@@ -65,6 +65,12 @@ type Finding struct {
 }
 
 var (
+	extraCoverage   = map[string]any{}
+	extraExhaustive = true
+	extraViolations = 0
+)
+
+var (
 	verifRoot = envOr("VERIF_ROOT", "/verif")
 	repoRoot  = envOr("VERIF_REPO", "/repo")
 )
@@ -512,6 +518,28 @@ func cmdRun(args []string) int {
 			if bad > 0 {
 				fmt.Printf("  ENGINE-DISAGREEMENT %s: %d of %d completed sample paths did not pass natively\n", h.Name, bad, n)
 			}
+		}
+	}
+	if ps.ID == "C09" && *only == "" {
+		hr, viol, complete := runHornC09(pg)
+		extraCoverage["grammar_fixpoint_H2"] = hr
+		fmt.Printf("fixpoint C09.H2: %d grammar rules, %d Horn clauses, filtered=%v, z3 verdict=%s (unsat = no accepted derivation contains a forbidden construct) in %.2fs; parser/grammar graph mismatches=%d; probes=%d accepted=%d\n",
+			hr.Rules, hr.Clauses, hr.Filtered, hr.Verdict, hr.SolverS, len(hr.GraphMismatch), hr.Probes, len(hr.ProbeAccepted))
+		for _, n := range hr.Notes {
+			fmt.Println("  note C09.H2:", n)
+		}
+		for _, mm := range hr.GraphMismatch {
+			fmt.Println("  NOT-EXHAUSTIVE C09.H2: grammar and generated parser differ:", mm)
+		}
+		if !complete {
+			fmt.Println("  NOT-EXHAUSTIVE C09.H2: the fix-point argument is not closed on this tree (see evidence)")
+			extraExhaustive = false
+		}
+		for i, f := range viol {
+			fmt.Printf("VIOLATION property=C09 replay=%s\n", f)
+			fmt.Printf("  probe accepted under the default context: %s\n", hr.ProbeAccepted[i])
+			exit = max(exit, 1)
+			extraViolations++
 		}
 	}
 	writeEvidence(ps, *tier, seed, results, time.Since(t0), tLoad)
